@@ -367,6 +367,11 @@ func (fr *Frame) reachCheck(st *State, ins ssa.Instruction, gc *FuncContract) {
 			if rc.Stmt != callKey && rc.Stmt != callKeyQ {
 				continue
 			}
+			// N "call:Name": only the N-th call of that name in source order
+			// (within the outermost source function, function literals included)
+			if rc.Nth > 0 && x.w.callOrdinal(fr.fn, ins.Pos(), strings.TrimPrefix(callKey, "call:")) != rc.Nth {
+				continue
+			}
 		} else {
 			if txt == "" {
 				continue
